@@ -152,14 +152,19 @@ def run_sbeppc(schema, out_dir, variant="dbg", extra=(), timeout=60, env=None, c
         return None, (ex.stdout or b"").decode("utf-8", "replace")
 
 
-def gc_cache(keep_keys=()):
-    """drop cache entries of other trees (disk is limited)"""
+def gc_cache(max_age_s=2 * 3600):
+    """drop cache entries that belong to other trees and have not been used recently (disk is limited)"""
     if not os.path.isdir(CACHE):
         return
+    cur = tree_key()
     for name in os.listdir(CACHE):
         p = os.path.join(CACHE, name)
-        if name.startswith("sbeppc-") or name.startswith("obj-"):
-            if not any(k in name for k in keep_keys):
-                age = time.time() - os.path.getmtime(p)
-                if age > 6 * 3600:
+        try:
+            if name.startswith("work-") and name != "work-" + cur:
+                if time.time() - os.path.getmtime(p) > max_age_s:
                     shutil.rmtree(p, ignore_errors=True)
+            elif name.startswith("sbeppc-"):
+                if time.time() - os.path.getatime(os.path.join(p, "sbeppc")) > 4 * max_age_s:
+                    shutil.rmtree(p, ignore_errors=True)
+        except OSError:
+            pass
